@@ -356,12 +356,17 @@ class Run(RunBase):
                     "dialect": rng.choice(DIALECTS), "k": rng.randrange(1 << 30),
                     "named": rng.random() < 0.5, "stoich": rng.random() < 0.7,
                     "thresholds": rng.choice(("default", "default", "disp", "latt", "both"))}
+        if x < 0.945:
+            return {"op": "badposcar", "src": k, "dst": rng.randrange(nobj), "empty": rng.random() < 0.7,
+                    "kind": rng.choice(("truncate", "extra-column", "far-atom", "garbage")), "k": rng.randrange(1 << 20)}
         if x < 0.96:
             return {"op": "read", "obj": k, "i": rng.randrange(self.nsites), "how": rng.choice(("item", "pos", "slice", "index", "occpos")),
                     "shift": [rng.choice((-1, 0, 1)) for _ in range(3)]}
         c = rng.randrange(self.ncrys, self.nchem) if (self.nchem > self.ncrys and rng.random() < 0.8) \
             else rng.randrange(-1, self.nchem + 2)
-        return {"op": "definesolute", "obj": k, "c": c, "name": rng.choice(["X", "Y", "Zr", "X"])}
+        # names: new elements, a repeated name, or the name of a species that is already there (a tracer)
+        return {"op": "definesolute", "obj": k, "c": c,
+                "name": rng.choice(["X", "Y", "Zr", "X"] + [str(n) for n in self.base.crys.chemistry])}
 
     # ---- executor ---------------------------------------------------------
     def apply(self, index, op):
@@ -661,6 +666,57 @@ class Run(RunBase):
                 self.objs.pop()
                 self.models.pop()
         return "ok:" + used
+
+    def op_badposcar(self, op):
+        """A POSCAR read that fails part-way (file truncated, a species column the cell does not declare, an atom far
+        from every site, a non-numeric token). C28 does not say what the cell holds afterwards -- only that occ and
+        chemorder still describe ONE configuration; the model is re-synchronised from the object after the check."""
+        s = op["src"] % len(self.objs)
+        d = op["dst"] % len(self.objs)
+        src, tgt, mt = self.objs[s], self.objs[d], self.models[d]
+        lines = src.POSCAR("bad").split("\n")
+        name, a0, latt, counts, mode, coords = parse_poscar("\n".join(lines))
+        rnd = random.Random(op["k"])
+        kind, kw = op["kind"], {}
+        ncoord = sum(counts)
+        body = [l for l in lines if l.strip()]
+        if kind == "truncate" and ncoord >= 1:
+            body = body[:-rnd.randrange(1, min(3, ncoord) + 1)]
+        elif kind == "extra-column":
+            for n, l in enumerate(body):
+                if n >= 5 and all(tok.lstrip("-").isdigit() for tok in l.split()):
+                    body[n] = l + " 1"
+                    break
+            body.append("0.5 0.5 0.5")
+        elif kind == "far-atom" and ncoord >= 1:
+            u = [float(x) for x in body[-1].split()[:3]]
+            body[-1] = "{:.12f} {:.12f} {:.12f}".format(u[0] + 0.137, u[1] + 0.071, u[2] + 0.113)
+            kw["disp_threshold"] = 1e-6
+        else:
+            body[-1] = "0.25 abc 0.5"
+        text = "\n".join(body) + "\n"
+        try:
+            tgt.POSCAR_occ(text, EMPTY_SUPER=bool(op["empty"]), **kw)
+            out = "accepted"
+        except Exception as e:
+            out = "raised " + type(e).__name__
+            self.faults["failed-poscar-read-" + kind] += 1
+        occ = [int(x) for x in tgt.occ]
+        order = [[int(i) for i in l] for l in tgt.chemorder]
+        self.checks += 1
+        seen = {}
+        for c, l in enumerate(order):
+            for i in l:
+                if i in seen or not (0 <= i < self.nsites) or occ[i] != c:
+                    self.fail("insane", "after a failed POSCAR read ({}): occ/chemorder disagree at site {}".format(kind, i))
+                seen[i] = c
+        for i, c in enumerate(occ):
+            if i not in seen and c != -1:
+                self.fail("insane", "after a failed POSCAR read ({}): site {} has species {} but is in no list".format(kind, i, c))
+        if not tgt.__sane__():
+            self.fail("insane", "after a failed POSCAR read ({}): __sane__() is False".format(kind))
+        mt.occ, mt.order = occ, order            # whatever (consistent) configuration the failed read left
+        return out
 
     # ---- quiescent sweep --------------------------------------------------
     def finish(self):
